@@ -4,6 +4,7 @@ Seams: the file system (SimFS under /simfs with injected ENOSPC / EIO at open / 
 the joblib executor of the BIF reader (SimParallel), hash order (every worker has its own PYTHONHASHSEED;
 the UAI reader takes parent order from a set).  Oracle: named-assignment conditional tables of the source."""
 import copy
+import math
 import errno
 import itertools
 import random
@@ -31,6 +32,7 @@ def generate(streams, tier):
         world = W.gen_bn(streams, max_n=6 if not bigtab else 7, min_n=1, max_card=4, max_parents=5 if bigtab else 4, max_joint=10**9,
                          label_mode="str", keyword_rate=r.choice([0.0, 0.0, 0.3, 0.8]), tiny_rate=r.choice([0.0, 0.2, 0.6]),
                          state_modes=[("default", 2), ("str", 3), ("int_sorted", 1), ("int", 1)], max_table=2500, big_card_rate=0.15)
+        _maybe_wide_variable(streams.s("wide"), world, 0.1 if not big else 0.2)
         config = W.gen_bn_config(streams, world)
         fmts = FORMATS_BN
     else:
@@ -53,6 +55,39 @@ def generate(streams, tier):
                              "err": rw.choice(["ENOSPC", "EIO"])} for _ in range(rw.randint(1, 3))]
         ops.append(op)
     return {"kind": kind, "world": world, "config": config, "ops": ops}
+
+
+def _maybe_wide_variable(r, world, rate):
+    """A sink variable with hundreds of states whose columns hold one or two large entries and a long tail of entries below
+    the four-decimal rounding step (a state space such as a zip code or a word list): the rounded column of a NET file sums
+    to visibly less than one, and every format has to carry a very long row."""
+    if r.random() >= rate:
+        return
+    n = world["n"]
+    sinks = [v for v in range(n) if not any(v in world["parents"][c] for c in range(n))]
+    sinks = [v for v in sinks if W._prod([world["card"][p] for p in world["parents"][v]]) <= 2]  # the BIF reader needs seconds per thousand numbers
+    if not sinks:
+        return
+    v = r.choice(sinks)
+    k = r.randint(240, 290)
+    ncols = W._prod([world["card"][p] for p in world["parents"][v]])
+    cols = []
+    for _ in range(ncols):
+        lo = 4.2e-5 if r.random() < 0.6 else 1e-6   # a heavy tail loses more than a hundredth of the column's mass to rounding
+        tail = [r.uniform(lo, 4.99e-5) for _ in range(k)]
+        heads = r.sample(range(k), r.choice([1, 1, 2]))
+        for h in heads:
+            tail[h] = 0.0
+        rest = 1.0 - math.fsum(tail)
+        w = [r.random() + 0.2 for _ in heads]
+        for h, wh in zip(heads, w):
+            tail[h] = rest * wh / sum(w)
+        cols.append(tail)
+    world["card"][v] = k
+    world["tables"][v] = [[cols[j][i] for j in range(ncols)] for i in range(k)]
+    if world["states"][v] is not None:
+        world["states"][v] = ["w%d" % i for i in range(k)]
+    world["wide"] = v
 
 
 def describe(case):
